@@ -789,6 +789,9 @@ static void check_order(trial_t *t)
 			 * queued operations one after the other, each done is still posted from the operation's dispose, after
 			 * its pending progress deliveries / interval timer; keyed separately */
 			int pending_failed = (a->ninv >= 2 || t->interval) && a->err_done != 0 && a->err_done == b->err_done;
+			/* and when only the later operation fails (the peer goes away after the earlier one's bytes were taken): its done
+			 * overtakes the earlier operation's, which still has progress deliveries queued */
+			int pending_later_failed = (a->ninv >= 2 || t->interval) && a->err_done == 0 && b->err_done != 0 && b->err_done != ECANCELED;
 			/* convenience API: the descriptor's registration does not outlive its operations. When the first call's I/O is finished
 			 * before the second call is looked up, the second gets a fresh registration, while the first's handler still waits for
 			 * the cancellation of its event source on the old one's close queue (it needed the source: pipe full). Both succeed,
@@ -797,7 +800,8 @@ static void check_order(trial_t *t)
 			snprintf(k, sizeof(k), zero ? "C14:%s:zero-length-op-completes-out-of-order" : canc ? "C14:%s:ops-complete-out-of-order:cancelled-by-stop" :
 					conv_regen ? "C14:%s:ops-complete-out-of-order:convenience-api:both-succeeded" :
 					pending ? "C14:%s:ops-complete-out-of-order:earlier-op-still-delivering" :
-					pending_failed ? "C14:%s:ops-complete-out-of-order:earlier-op-still-delivering:both-failed-alike" : "C14:%s:ops-complete-out-of-order", dn);
+					pending_failed ? "C14:%s:ops-complete-out-of-order:earlier-op-still-delivering:both-failed-alike" :
+					pending_later_failed ? "C14:%s:ops-complete-out-of-order:earlier-op-still-delivering:later-op-failed" : "C14:%s:ops-complete-out-of-order", dn);
 			VIOL(t, k, "stream channel, serial handler queue: %s was submitted before %s, but the later operation's done invocation returned before the earlier one's began", ba, bb);
 			return;
 		}
